@@ -264,6 +264,11 @@ fn boundary_case(case: u64, part: u64, stride: u64) -> CaseOut {
             toks.push(format!("lab{}", s));
         }
     }
+    // characters that are no ASCII digits but whose code point, cut to eight bits, is one (Cyrillic be/ve/es,
+    // dotless i, full-width and Arabic-Indic digits): no digit of any radix
+    for t in ["#1\u{431}", "x300\u{431}", "0x300\u{432}", "b1\u{431}", "o7\u{432}", "1\u{431}", "x\u{441}", "#\u{432}", "^0x0\u{432}", "lab+x0\u{432}", "lab+\u{431}", "\u{ff11}\u{ff12}", "#\u{661}", "x\u{131}0", "3\u{131}"] {
+        toks.push(t.to_string());
+    }
     // more digits than any integer type holds, then a character that makes the token a label
     for t in ["xfffffffffg", "Xf2f7fB7A0GFx2", "b1000000000000000000000000000000000_t", "o77777777777777777777z", "x123456789abcdefQ", "b" ] {
         toks.push(t.to_string());
@@ -395,7 +400,7 @@ fn names_case(seed: u64, i: u64) -> CaseOut {
 fn random_case(seed: u64, i: u64) -> CaseOut {
     let mut out = CaseOut::new();
     let mut rng = Rng::for_case(seed, "C14r", i);
-    let pool: Vec<char> = "+-#xXoObB0123456789aAfFgGzZ^rR_.,:'\"\u{e9}\u{1F34B}\u{2713}\t".chars().collect();
+    let pool: Vec<char> = "+-#xXoObB0123456789aAfFgGzZ^rR_.,:'\"\u{e9}\u{1F34B}\u{2713}\t\u{431}\u{432}\u{441}\u{131}\u{ff12}\u{661}".chars().collect();
     let mut evals = 0;
     let mut mb = false;
     for _ in 0..300 {
@@ -471,7 +476,7 @@ fn machine_case(seed: u64, i: u64) -> CaseOut {
     for _ in 0..40 {
         if rng.chance(1, 8) {
             // multi-byte text travels through the same reader: must neither panic nor shift later commands
-            let l = format!("echo {}", rng.s(&["caf\u{e9}", "\u{20ac}ab", "\u{1F34B}", "a\u{e9}b\u{2713}", "\u{ff12}"]));
+            let l = format!("echo {}", rng.s(&["caf\u{e9}", "\u{20ac}ab", "\u{1F34B}", "a\u{e9}b\u{2713}", "\u{ff12}", "\u{43f}\u{440}\u{438}\u{432}\u{435}\u{442}", "\u{5e9}\u{5dc}\u{5d5}\u{5dd}", "\u{645}\u{631}\u{62d}\u{628}\u{627}", "\u{7ff}\u{400}"]));
             cmds.push(Cmd::Inspect(l.clone()));
             lines.push(l);
             continue;
